@@ -46,7 +46,10 @@ pub enum RespBody {
 }
 #[derive(Serialize, Deserialize, Clone, Debug, PartialEq)]
 pub enum HAct {
+    /// Pending once
     Pend,
+    /// Pending until the next external event (a round with `hw`)
+    Wait,
     Read,
     ReadAll,
     /// drop the request payload (oracle-only scenarios; not modelled)
@@ -155,7 +158,11 @@ pub fn head_len(k: HeadKind) -> usize {
                 r: LW,
                 items: vec![Item::Req { h: 18, b: None }, Item::Endless],
                 handlers: vec![vec![HAct::Respond(RespBody::None)]],
-                rounds: vec![Round { add: MAXB + 2 * LW, wr: vec![W::A(1 << 30); 3], ..Default::default() }],
+                rounds: vec![
+                    Round { add: MAXB + 2 * LW, wr: vec![W::A(1 << 30); 3], ..Default::default() },
+                    Round { add: 2 * LW, wr: vec![W::A(1 << 30); 3], ..Default::default() },
+                    Round { add: 0, wr: vec![W::A(1 << 30); 3], ..Default::default() },
+                ],
             };
             run_case(&case, false).accepted_total - head_len(HeadKind::None)
         }
@@ -276,6 +283,8 @@ pub struct Rec {
     pub responded: usize,
     pub hreg: bool,
     pub hwaker: Option<Waker>,
+    /// external handler events so far
+    pub hwc: usize,
 }
 
 pub struct ScriptBody {
@@ -316,6 +325,7 @@ pub struct HandlerFut {
     payload: actix_http::Payload,
     acts: VecDeque<HAct>,
     rec: Rc<RefCell<Rec>>,
+    ticket: Option<usize>,
 }
 impl Future for HandlerFut {
     type Output = Result<Response<ScriptBody>, Error>;
@@ -333,6 +343,23 @@ impl Future for HandlerFut {
                     rec.hreg = true;
                     rec.hwaker = Some(cx.waker().clone());
                     return Poll::Pending;
+                }
+                HAct::Wait => {
+                    let mut rec = this.rec.borrow_mut();
+                    match this.ticket {
+                        Some(t) if t < rec.hwc => {
+                            this.ticket = None;
+                            this.acts.pop_front();
+                        }
+                        _ => {
+                            if this.ticket.is_none() {
+                                this.ticket = Some(rec.hwc);
+                            }
+                            rec.hreg = true;
+                            rec.hwaker = Some(cx.waker().clone());
+                            return Poll::Pending;
+                        }
+                    }
                 }
                 HAct::Drop => {
                     this.acts.pop_front();
@@ -442,7 +469,7 @@ pub fn run_case(case: &Case, wake_driven: bool) -> RunOut {
                 r.started - 1
             };
             let acts: VecDeque<HAct> = scripts2.get(idx).cloned().unwrap_or_default().into();
-            HandlerFut { payload: req.take_payload(), acts, rec: rec2.clone() }
+            HandlerFut { payload: req.take_payload(), acts, rec: rec2.clone(), ticket: None }
         })
         .await;
         let need: usize = case.rounds.iter().map(|r| r.add).sum();
@@ -470,6 +497,7 @@ pub fn run_case(case: &Case, wake_driven: bool) -> RunOut {
                 s.flush_script.extend(rd.fl.iter().map(|f| fstep(*f)));
             }
             if rd.hw {
+                rec.borrow_mut().hwc += 1;
                 let w = rec.borrow_mut().hwaker.take();
                 if let Some(w) = w {
                     w.wake();
@@ -593,6 +621,7 @@ pub fn coq_bacts(stream: bool, a: &[BAct]) -> String {
 pub fn coq_hact(a: &HAct) -> String {
     match a {
         HAct::Pend => "HPend".into(),
+        HAct::Wait => "HWait".into(),
         HAct::Read => "HRead".into(),
         HAct::ReadAll => "HReadAll".into(),
         HAct::Drop => "HDrop_not_modelled".into(),
